@@ -475,7 +475,7 @@ pub fn run(args: &Args) {
     report.run_regressions(|i| run_input(i, false, &report));
 
     let ex = Exclusions::default();
-    let n = args.tier.pick(2400u32, 30_000u32);
+    let n = args.tier.pick(8000u32, 60_000u32);
     let responses = args.tier.pick(3usize, 5usize);
     let res = vcore::run_prop_parallel(&report, "programs", n, vcore::num_workers(), c10_strategy, |s| {
         let case = case_of(s, &ex);
